@@ -73,7 +73,13 @@ struct BitRunner {
 			unsigned op = t.pick(32);
 			switch(op) {
 			case 0: { unsigned long long v = val(); c.op("%s = bitset(%#llx)", w, v); f.~F(); memset((void *)&f, 0xA5, sizeof(F)); new (&f) F(v); r = from_val(v); break; }
-			case 1: { size_t p = t.pick(N); bool v = t.flip(); c.op("%s.set(%zu,%d)", w, p, (int)v); f.set(p, v); r.set(p, v); break; }
+			case 1: { size_t p = t.pick(N); uint32_t fv = t.next(); bool v = fv & 1; unsigned how = (fv >> 1) % 4;
+				// set(pos, val): val is a bool parameter; callers pass flag tests (x & 4), counts and other values that convert to bool
+				if(how == 1) { int iv = v ? (int)(2u << ((fv >> 3) % 20)) : 0; c.op("%s.set(%zu, int %d)", w, p, iv); f.set(p, iv); r.set(p, iv); c.tag("bitset-set-nonbool-value"); }
+				else if(how == 2) { unsigned long long lv = v ? (1ull << (8 + (fv >> 3) % 55)) : 0; c.op("%s.set(%zu, %#llx)", w, p, lv); f.set(p, lv); r.set(p, lv); c.tag("bitset-set-nonbool-value"); }
+				else if(how == 3) { double dv = v ? 0.5 : 0.0; c.op("%s.set(%zu, %g)", w, p, dv); f.set(p, dv); r.set(p, dv); c.tag("bitset-set-nonbool-value"); }
+				else { c.op("%s.set(%zu,%d)", w, p, (int)v); f.set(p, v); r.set(p, v); }
+				break; }
 			case 2: { size_t p = t.pick(N); c.op("%s.reset(%zu)", w, p); f.reset(p); r.reset(p); break; }
 			case 3: { size_t p = t.pick(N); c.op("%s.flip(%zu)", w, p); f.flip(p); r.flip(p); break; }
 			case 4: c.op("%s.set()", w); f.set(); r.set(); break;
